@@ -1931,7 +1931,7 @@ R.mutant("checkin-no-double-checkin-guard", POOL,
          sub("        if self.fairy_ref is None and _fairy_was_created:", "        if self.fairy_ref is None and _fairy_was_created and self.fresh:"), "C25-R6")
 R.mutant("checkin-clears-fairy-ref-late", POOL,
          chain(sub("        self.fairy_ref = None\n        connection = self.dbapi_connection\n        pool = self.__pool\n", "        connection = self.dbapi_connection\n        pool = self.__pool\n"),
-               sub("        pool._return_conn(self)\n", "        pool._return_conn(self)\n        self.fairy_ref = None\n")), "C25-R6")
+               sub("            raise\n\n        pool._return_conn(self)\n", "            raise\n\n        pool._return_conn(self)\n        self.fairy_ref = None\n")), "C25-R6")
 # --- seeds (round 2) and their neighbourhood
 _INC = "        with self._overflow_lock:\n            if self._overflow < self._max_overflow:\n                self._overflow += 1\n                return True\n            else:\n                return False\n"
 R.mutant("seed1-inc-overflow-limit-test-hoisted-out-of-lock", IMPL,
@@ -2170,7 +2170,8 @@ R.mutant("benign-rob-checkedout-through-locals", IMPL,
 
 # ---------------------------------------------------------------------- str2-j: round-2 seeds (C25_3, C25_4)
 # --- C25-R6: the record is not written after it was handed back
-_CHECKIN_TAIL = ("        if pool.dispatch.checkin:\n            pool.dispatch.checkin(connection, self)\n\n        pool._return_conn(self)\n")
+# (tail of checkin() since the fix b091da1: error arm, then the normal hand-back)
+_CHECKIN_TAIL = ("            pool._return_conn(self)\n            raise\n\n        pool._return_conn(self)\n")
 R.mutant("seed4-checkin-clears-fairy-ref-after-return", POOL,
          chain(sub("            return\n        self.fairy_ref = None\n        connection = self.dbapi_connection\n", "            return\n        connection = self.dbapi_connection\n"),
                sub(_CHECKIN_TAIL, _CHECKIN_TAIL + "        self.fairy_ref = None\n")), "C25-R6")
